@@ -233,7 +233,8 @@ inline void rst_dump_state(const Opm::Schedule& sched, int step, const Opm::Summ
                 out.kv_s("kind", "DEFINE").kv_s("input_string", d.input_string()).kv_i("update", (int)d.status().first);
             } else {
                 const auto& a = in.get<Opm::UDQAssign>();
-                out.kv_s("kind", "ASSIGN").kv_i("report_step", a.report_step());
+                // (UDQAssign::report_step() is not called: it reads records.back() and a restarted ASSIGN without values has no records)
+                out.kv_s("kind", "ASSIGN");
                 out.key("assign").raw(serial_dump(a));
             }
             out.end_obj();
